@@ -12,7 +12,7 @@ verus! {
 //@ltype Verbosity => int
 //@lstruct feos-core/src/state/mod.rs State fields=molefracs
 //@lextern ln_phi(L_State) -> RArr
-//@lift feos-core/src/phase_equilibria/bubble_dew.rs adjust_x2 observe=k:RArr,err_out__terms:RArr,err_out:real observe_only
+//@lift feos-core/src/phase_equilibria/bubble_dew.rs adjust_x2 observe=k:RArr,@ret__terms:RArr,@ret:real observe_only
 //@end
 
 /// a sum of non-negative terms bounds each term
@@ -50,13 +50,13 @@ pub proof fn contract_c05_3_outer_residual_bounds_every_component(state1: L_Stat
         ln_phi(state1).len == state1.molefracs.len,
     ensures
         adjust_x2__k(state1, state2, verbosity) is Ok,
-        adjust_x2__err_out(state1, state2, verbosity) is Ok,
+        adjust_x2__ret(state1, state2, verbosity) is Ok,
         // K_i = exp(ln phi1_i - ln phi2_i)
         (adjust_x2__k(state1, state2, verbosity)->Ok_0.at)(i) == rexp((ln_phi(state1).at)(i) - (ln_phi(state2).at)(i)),
         // the residual the outer loop tests bounds the isofugacity defect of every component
-        defect(state1, state2, i) <= adjust_x2__err_out(state1, state2, verbosity)->Ok_0,
+        defect(state1, state2, i) <= adjust_x2__ret(state1, state2, verbosity)->Ok_0,
 {
-    let t = adjust_x2__err_out__terms(state1, state2, verbosity)->Ok_0;
+    let t = adjust_x2__ret__terms(state1, state2, verbosity)->Ok_0;
     assert forall|j: int| 0 <= j < t.len implies #[trigger] (t.at)(j) >= 0real by {
         contract_form_term(state1, state2, verbosity, j);
     }
@@ -68,13 +68,13 @@ pub proof fn contract_c05_3_outer_residual_bounds_every_component(state1: L_Stat
 pub proof fn contract_form_term(state1: L_State, state2: L_State, verbosity: int, j: int) by(nonlinear_arith)
     requires ln_phi(state1).len == state1.molefracs.len
     ensures
-        adjust_x2__err_out__terms(state1, state2, verbosity) is Ok,
-        adjust_x2__err_out__terms(state1, state2, verbosity)->Ok_0.len == state1.molefracs.len,
-        (adjust_x2__err_out__terms(state1, state2, verbosity)->Ok_0.at)(j) == defect(state1, state2, j),
+        adjust_x2__ret__terms(state1, state2, verbosity) is Ok,
+        adjust_x2__ret__terms(state1, state2, verbosity)->Ok_0.len == state1.molefracs.len,
+        (adjust_x2__ret__terms(state1, state2, verbosity)->Ok_0.at)(j) == defect(state1, state2, j),
         defect(state1, state2, j) >= 0real,
-        adjust_x2__err_out(state1, state2, verbosity) is Ok,
-        adjust_x2__err_out(state1, state2, verbosity)->Ok_0
-            == rsum(adjust_x2__err_out__terms(state1, state2, verbosity)->Ok_0.len, adjust_x2__err_out__terms(state1, state2, verbosity)->Ok_0.at),
+        adjust_x2__ret(state1, state2, verbosity) is Ok,
+        adjust_x2__ret(state1, state2, verbosity)->Ok_0
+            == rsum(adjust_x2__ret__terms(state1, state2, verbosity)->Ok_0.len, adjust_x2__ret__terms(state1, state2, verbosity)->Ok_0.at),
         adjust_x2__k(state1, state2, verbosity) is Ok,
         (adjust_x2__k(state1, state2, verbosity)->Ok_0.at)(j) == rexp((ln_phi(state1).at)(j) - (ln_phi(state2).at)(j)),
 {}
